@@ -5,8 +5,9 @@ from pysym.harness import run_cases
 
 LEVEL = 'other'
 DEDUCTIVE = []          # contract modules run by engine P for this property
-FINISH = dict(rule='see checks/b04.py RULE / run.bound entries', explanation='bounded stand-in (engine B) of the contracts of DESIGN §2 C04; '
-              'labelled bounded, never counted as proved', trusted_base=['CPython 3.12', 'oracles/*', 'RDKit where stated'])
+FINISH = dict(rule='deductive: one obligation per path / table key; B: see run.bound entries of checks/b04.py',
+              explanation='T: compiled valence rules == independent re-derivation from the raw tables for all 118 element classes; B: exhaustive element x charge x radical x bond-multiset grid against the re-derivation, a textbook model and RDKit',
+              trusted_base=['CPython', 'oracles/o04_valence.py', 'RDKit valence model (one-directional, organic subset)'])
 replay = make_replay('C04')
 
 
